@@ -18,13 +18,13 @@ const (
 )
 
 const (
-	SIFMT  = 0o170000
-	SIFDIR = 0o040000
-	SIFCHR = 0o020000
-	SIFBLK = 0o060000
-	SIFREG = 0o100000
-	SIFIFO = 0o010000
-	SIFLNK = 0o120000
+	SIFMT   = 0o170000
+	SIFDIR  = 0o040000
+	SIFCHR  = 0o020000
+	SIFBLK  = 0o060000
+	SIFREG  = 0o100000
+	SIFIFO  = 0o010000
+	SIFLNK  = 0o120000
 	SIFSOCK = 0o140000
 )
 
